@@ -400,7 +400,10 @@ func genericRules(w *World, r *Report, prop string) {
 							continue
 						}
 						last := returnedValue(ret, len(ret.Results)-1)
-						if last == nil || !isErrorType(fn.Signature.Results().At(fn.Signature.Results().Len()-1).Type()) || !isNilConst(last) {
+						if last == nil || !isErrorType(fn.Signature.Results().At(fn.Signature.Results().Len()-1).Type()) {
+							continue
+						}
+						if !isNilConst(last) {
 							continue
 						}
 						key := host + " | " + oname
